@@ -29,6 +29,8 @@ type FuncReport struct {
 	Unsupported string
 	CoverPCs    [][]*Term
 	EntryPC     []*Term
+	Probes      map[string]*Term
+	Template    *ReplayTemplate
 }
 
 func (e *Engine) specAxioms(pkg *types.Package) []*Term {
